@@ -322,6 +322,8 @@ func (d *DgramConn) Write(p []byte) (int, error) {
 
 // DnsWorld is the DNS-tunnel part of a World.
 type DnsWorld struct {
+	// ServerConns: the tunnel sessions the server accepted (its own connection objects)
+	ServerConns []net.Conn
 	W       *World
 	Comm    *memServerComm
 	Lis     *sdns.ServerDnsListener
@@ -357,6 +359,9 @@ func newDnsWorld(w *World, chans server.Channels) (*DnsWorld, error) {
 			if err != nil {
 				return
 			}
+			w.mu.Lock()
+			d.ServerConns = append(d.ServerConns, c)
+			w.mu.Unlock()
 			conn := streams.NewNamedConnection(c, "dns")
 			go func() {
 				if err := server.AcceptConnection(conn, &w.SrvCfg, false, chans); err != nil {
